@@ -29,6 +29,8 @@ def tasks(tier):
     for K in (1, 2, 3, 4, 5):
         ts.append(Task('props.C03:t_step', name='C03/wire.driver-step.%d' % K, K=K, timeout=600))
         ts.append(Task('props.C03:t_inject', name='C03/wire.inject.%d' % K, K=K, timeout=600))
+    ts.append(Task('props.C03:t_const', name='C03/wire.const-1d', K=1, timeout=900))
+    ts.append(Task('props.C03:t_const', name='C03/wire.const-2d', K=2, timeout=900))
     return ts + bounded_tasks('C03', tier)
 
 
@@ -42,6 +44,18 @@ def t_step(K):
             r['id'] = r['id'].replace('C02/', 'C03/', 1)
             out.append(r)
     return out
+
+
+def t_const(K):
+    """the constant-parameter drivers assemble the system from V(x, nu), M, Delta and delj(M, dx, V) of the SAME population: with the rescaling lemmas
+    over those coefficient functions this is what makes them independent of the reference size (same contracts as C02)"""
+    from contracts import py_wiring as W
+    rs = W.c02_const_1d(4) if K == 1 else W.c02_const_kd(2, 3)
+    for r in rs:
+        r['id'] = r['id'].replace('C02/', 'C03/', 1)
+        if r.get('finding_key'):
+            r['finding_key'] = r['finding_key'].replace('C02/', 'C03/', 1)
+    return rs
 
 
 def t_inject(K):
